@@ -307,6 +307,44 @@ def run_case(case, rec, ctx):
         if j < k3 and (i, j, k3) in z and (i, k3, j) in z:
             ok = (z[i, j, k3] == -z[i, k3, j]) | (np.isnan(z[i, j, k3]) & np.isnan(z[i, k3, j]))
             rec.check(bool(ok.all()), "zeta_antisymmetry", f"zeta^{i}_{j}({k3}) != -zeta^{i}_{k3}({j})", wit(int(np.argmin(ok))), {**feats, "family": "zeta"})
+    # route B: the masses are inserted as exact numbers (an exactly massless particle = exact zero) *before* doit();
+    # the result must be the same function of the Dalitz variables as the symbolic route A evaluated above
+    if st in ("flat", "threshold"):
+        import sympy as sp
+        exact = {"m_0": sp.Rational(M0), "m_1": sp.Rational(ms[0]), "m_2": sp.Rational(ms[1]), "m_3": sp.Rational(ms[2])}
+        todo = [(("hat", i, j), th[i, j], (lambda i=i, j=j: A.formulate_theta_hat_angle(i, j)), f"theta_hat_{i}({j})") for (i, j) in th]
+        todo += [(("theta", i, j), sc[i, j], (lambda i=i, j=j: A.formulate_scattering_angle(i, j)), f"theta_{i}{j}") for (i, j) in sc]
+        todo += [(("zeta", i, j, k3), z[i, j, k3], (lambda i=i, j=j, k3=k3: A.formulate_zeta_angle(i, j, k3)), f"zeta^{i}_{j}({k3})") for (i, j, k3) in z]
+        if ctx["tier"] == "quick":
+            todo = [todo[k] for k in sorted(rng.choice(len(todo), min(len(todo), 24), replace=False))]
+        for key, va, build, label in todo:
+            rec.hit("route:numbers_before_doit")
+            try:
+                _, expr = build()
+                expr = sp.sympify(expr)
+                eb = expr.xreplace({s_: exact[s_.name] for s_ in expr.free_symbols if s_.name in exact}).doit()
+                fs_b = sorted(eb.free_symbols, key=str)
+                fb = sp.lambdify(fs_b, eb) if fs_b else (lambda v_=complex(eb): v_)
+                with np.errstate(all="ignore"):
+                    vb = np.asarray(fb(*[vals[s_.name] for s_ in fs_b])) * np.ones(n)
+            except Exception as exc:  # noqa: BLE001
+                rec.check(False, "numbers_first_route", f"{label}: inserting exact masses before doit() raised {type(exc).__name__}: {str(exc)[:150]}", wit(0),
+                          {**feats, "family": key[0], "route": "numbers_before_doit"})
+                continue
+            vb = np.where(np.abs(np.imag(vb)) < 1e-12, np.real(vb), np.nan)
+            tol = base + 1e3 * _sens(_eval, ctx["cache"][key], vals, n, rng, va) + _acos_floor(va)
+            # where the symbolic route is already NaN (0/0 for the degenerate angles of a massless particle) that is judged
+            # by acos_argument above; here only: wherever route A is finite, route B must agree
+            ok = (np.abs(vb - va) <= tol) | (tol > 1e-3) | ~inside | ~np.isfinite(va)
+            if key[0] == "zeta" and 1 <= key[1] <= 3 and ms[key[1] - 1] == 0.0:
+                # alignment angle of a massless particle: degenerate (0/0 in the formula, exactly so with an exact zero mass; route A
+                # returns rounding noise ~1e-8 there).  Counted, not judged - as in the sum-rule check above.
+                rec.stratum("route_b_degenerate_massless_zeta", "skipped", int((~ok).sum()))
+                ok |= True
+            kk = int(np.argmin(ok))
+            rec.check(bool(ok.all()), "numbers_first_route",
+                      f"{label}: with exact masses inserted before doit() the angle is {vb[kk]!r}, the symbolic route gives {va[kk]!r}",
+                      wit(kk), {**feats, "family": key[0], "route": "numbers_before_doit", "massless": [m_ == 0.0 for m_ in ms]})
     # geometric meaning of the elementary alignment angle (Wigner angle of particle i between the chain in which
     # it is the spectator's partner ...): zeta^i_{i(k)} is the angle, in the rest frame of i, between the
     # directions of the parent (0) and of the pair partner in subsystem k.  For massive i only.
